@@ -467,6 +467,23 @@ func runC18(r *Run) {
 	mkTime := func(local int64, ns int64, offMin int) time.Time {
 		return time.Unix(local-int64(offMin)*60, ns).In(time.FixedZone("", offMin*60))
 	}
+	// the same instant shown in two zones, written one after the other: each keeps its own offset
+	for i := 0; i < r.N(60, 600); i++ {
+		base := time.Unix(rng.Int63n(4e9)-1e9, rng.Int63n(1e9))
+		offs := []int{0, 330, -300, 60, 845, -720}
+		a := base.In(time.FixedZone("", 60*offs[rng.Intn(len(offs))]))
+		b0 := base.In(time.FixedZone("", 60*offs[rng.Intn(len(offs))]))
+		for _, t := range []time.Time{a, b0, a.UTC(), b0} {
+			s := t.Format(time.RFC3339Nano)
+			wrote, pw := codecWriteTime(avrotime.StringCodec{}, t)
+			r.Count("same-instant-two-zones")
+			if pw || string(wrote) != string(append(specVarint(int64(len(s))), s...)) {
+				r.Fail(-1, "other-stringcodec-write", fmt.Sprintf("StringCodec.Write(%s), written right after the same instant in another zone, wrote %x", s, wrote),
+					map[string]any{"kind": "same-instant", "first": a.Format(time.RFC3339Nano), "second": b0.Format(time.RFC3339Nano)})
+				break
+			}
+		}
+	}
 	nsShapes := func() int64 {
 		switch rng.Intn(6) {
 		case 0:
